@@ -41,7 +41,7 @@ RULE = ("pairwise covering array (vlib.hx.covering, greedy, seeded) over the dis
         "plus 5 invalid pipelines for the fail-together clause. PlaneWave rows have no scan (normalised to 'none'). "
         "A case is non-trivial when the compared arrays are not identically zero; for max_batch / chunking clauses "
         "additionally when the dask chunks of the two lazy results really differ (otherwise flagged trivial). "
-        "Distinct = distinct case dict. Thorough = 3 covering arrays with different seeds + 1500 random rows.")
+        "Distinct = distinct case dict. Thorough = 3 covering arrays with different seeds + 600 random rows.")
 BOUNDS = {
     "axes": _AXES,
     "atoms": "<= 5 atoms, orthogonal cell 3.2..5 A lateral, 2..4 slices",
@@ -49,7 +49,7 @@ BOUNDS = {
     "configurations": "1..4",
     "scan_positions": "<= 6",
     "rows": {"quick": "1 covering array (~60 rows) + 5 invalid pipelines",
-             "thorough": "3 covering arrays + 1500 random rows + 5 invalid pipelines"},
+             "thorough": "3 covering arrays + 600 random rows + 5 invalid pipelines"},
 }
 EXHAUSTIVE = False
 ASSUMPTIONS = [
@@ -114,7 +114,7 @@ def cases(tier, seed):
     nseeds = 1 if tier == "quick" else 3
     i = 0
     for s in range(nseeds):
-        rows = covering(_AXES, seed=1000 * seed + s, extra_random=0 if tier == "quick" else 500)
+        rows = covering(_AXES, seed=1000 * seed + s, extra_random=0 if tier == "quick" else 200)
         for row in rows:
             yield _finish(row, seed, i)
             i += 1
